@@ -63,6 +63,10 @@ def make_context(spec):
     base = spec.get("base", 0)
 
     def slave(u):
+        if spec.get("defaults"):
+            # no block given at all: the four default tables of ModbusSlaveContext (65536 zero cells each) — four
+            # SEPARATE tables, per unit
+            return ModbusSlaveContext(zero_mode=spec.get("zero_mode", True))
         blocks = {t: ModbusSequentialDataBlock(base, [init_value(u, t, i) for i in range(n)]) for t in TABLES}
         if spec.get("poison"):
             # a holding register holding a float: FC22 on it makes request.execute() raise TypeError
@@ -87,6 +91,8 @@ def dump_context(ctx):
 def spec_initial_dump(spec):
     n = spec.get("size", 16)
     units = [0] if spec["single"] else sorted(spec["units"])
+    if spec.get("defaults"):
+        return {u: {t: [0] * n for t in TABLES} for u in units}
     return {u: {t: [init_value(u, t, i) for i in range(n)] for t in TABLES} for u in units}
 
 
